@@ -536,3 +536,11 @@ package bgp
 //@ func ExtCommRouteTargetKey
 //@   pure
 //@   spec-only
+
+//@ props C08
+//@ func NewCapAddPath
+//@   modifies nothing
+//@   ensures result != nil && fresh(result) && result.Tuples == tuples
+//@ func NewCapMultiProtocol
+//@   modifies nothing
+//@   ensures result != nil && fresh(result) && result.CapValue == rf
